@@ -3102,7 +3102,9 @@ TSQuery *ts_query_new(
         step->depth == 0 &&
         !step->field &&
         // A supertype root is stored as a wildcard, but it constrains the node.
-        !step->supertype_symbol
+        !step->supertype_symbol &&
+        // So does a negated field on the root.
+        !step->negated_field_list_id
       ) {
         QueryStep *second_step = array_get(&self->steps, start_step_index + 1);
         if (
